@@ -38,6 +38,7 @@ RULE = ("text stream: every truncation of hand-written documents and of tests/fi
         "no_location=True; stripped of loc and source as a hand-built / visitor-rewritten document); HOSTILE TEXT (%, %s, %(x)s, {}, {0}, backslashes, "
         "quotes, line ends, NUL, astral, lone surrogates, 5000 characters) in every request string that reaches an error message: rejected variable values "
         "(scalars, enums, lists, input objects, keys), operation names, literals echoed by validation, variable defaults, resolver messages and extensions; "
+        "resolver error messages that are not str (wrapped exceptions, numbers, None, bytes, lists); "
         "ResolverErrors raised while a value is COMPLETED (resolve_type of abstract types, lazy iterables failing mid-iteration, custom serialisers) "
         "at object/list/leaf positions; @skip/@include on fields, inline fragments and spreads whose condition only fails at execution time "
         "(root and nested, below lists); numeric extremes (inf, nan, 1e308, 10**400, 2**31, denormals...) as variables and literals for Int/Float/ID/"
@@ -46,7 +47,9 @@ RULE = ("text stream: every truncation of hand-written documents and of tests/fi
 ASSUMPTIONS = [
     "resolvers return values their field type can serialise, or raise the library's ResolverError; any other exception "
     "(incl. RuntimeError 'cannot be serialized' for a wrong/non-finite value) propagates by design (pinned by tests/test_execution) and is outside the statement",
-    "custom scalar serialisers return JSON values; error `extensions` supplied by the application are Mappings (any kind) of JSON values",
+    "custom scalar serialisers return JSON values; error `extensions` supplied by the application are Mappings (any kind) of JSON values "
+    "(the documented `Optional[Mapping[str, Any]]`): a non-Mapping or non-JSON extension is an application error — drawn by the `bad-extensions` worlds, "
+    "where only containment (the entry point returns a result) is required; a resolver error MESSAGE may be any object and must be reported as a string",
     "a server may decorate the TOP LEVEL of an error's `extensions` in a rendered response; mutation of NESTED containers inside extensions is not exercised (to_dict copies one level)",
     "a root-level failure (root selection set cannot be collected) is the site with the EMPTY path: `data` is null and there is exactly one error, "
     "without a `path` entry; errors collected below a field before its completion failed are dominated by that field's error and not counted",
@@ -153,23 +156,33 @@ def shutdown():
         tp._inner.shutdown(wait=False)
 
 
+def safe_str(e):
+    try:
+        return O.clean(str(e))
+    except TypeError:       # `__str__ returned non-string`: the message object is not a str (reported by the oracle)
+        return "<non-str message>"
+
+
 def abs_err(e):
     """abstract form of an error object (what the model's `to_dict` consumes)"""
     from py_gql.exc import GraphQLSyntaxError, ResolverError, GraphQLLocatedError, ExecutionError
     if isinstance(e, GraphQLSyntaxError):
         # the position `to_dict` renders (a clamped one if the L6 fix of the lexer engineer is in)
         pos = e._render_position() if hasattr(e, "_render_position") else e.position
-        return {"cls": "syntax", "msg": O.clean(str(e)), "pos": pos}
+        return {"cls": "syntax", "msg": safe_str(e), "pos": pos}
     if isinstance(e, GraphQLLocatedError):
-        d = {"cls": "resolver" if isinstance(e, ResolverError) else "located", "msg": O.clean(str(e)),
+        d = {"cls": "resolver" if isinstance(e, ResolverError) else "located", "msg": safe_str(e),
              "nodes": [(n.loc[0] if (n.loc and n.source) else None) for n in e.nodes],
              "path": list(e.path) if e.path is not None else None}
         if isinstance(e, ResolverError):
-            d["ext"] = O.enc(dict(e.extensions)) if e.extensions is not None else None
+            try:
+                d["ext"] = O.enc(dict(e.extensions)) if e.extensions is not None else None
+            except (TypeError, ValueError):     # extensions that are not a Mapping (outside the contract; `bad-extensions` worlds)
+                d["ext"] = {"$nonjson": type(e.extensions).__name__}
         return d
     if isinstance(e, ExecutionError):
-        return {"cls": "execution", "msg": O.clean(str(e))}
-    return {"cls": "other:" + type(e).__name__, "msg": O.clean(str(e))}
+        return {"cls": "execution", "msg": safe_str(e)}
+    return {"cls": "other:" + type(e).__name__, "msg": safe_str(e)}
 
 
 def observe_stages(schema, text, operation_name, variables, executor="blocking", middlewares=None, document=None):
@@ -473,9 +486,16 @@ def check_case(ctx, case, pending):
             fail("entry-point-raises:%s:%s" % (stage, cls), "the entry point raised %s instead of returning a result: %s" % (cls, str(res)[:200]))
         return sigs
     resp, problems = O.strict_json_problems(res)
+    if world is not None and world.injected_bad_ext:
+        # extensions outside the documented contract (not a Mapping / values that are not JSON): an application error, outside the
+        # statement; what IS checked: the entry point returned a result (failure contained) — rendering may fail
+        ctx.stat("documented:extensions-outside-contract:" + ("renders" if not problems else problems[0][0].split(":")[0]))
+        return sigs
     for sig, d in problems:
         if sig.startswith("response-raises:IndexError") and internal and internal[0] == "range":
             sig = "syntax-error-position-out-of-range"
+        if sig == "response-raises:TypeError" and "returned non-string" in d and world is not None and world.injected_nonstr:
+            sig = "resolver-error-message-not-str"      # ResolverError(<exception / int / None>): the message is not coerced
         fail(sig, "response is not strict JSON / not serialisable: " + d)
     if resp is None:
         return sigs
@@ -983,6 +1003,11 @@ def _run(ctx, rng, pending):
             for rep in range(3):
                 cfg = CONFIGS[(k + rep) % 4]
                 check_case(ctx, make_case("history", BASE_SDL, base, cfg, text, None, None, w, middleware=(rep != 1), note="request %d of 3" % (rep + 1)), pending)
+    flush(ctx, pending)
+    # resolver errors whose `extensions` are outside the documented contract (not a Mapping, non-JSON values): contained
+    for k in range(ctx.n(4, 16)):
+        w = {"seed": 900 + k, "p_raise": 0.7, "p_null": 0.0, "p_null_nn": 0.0, "min_items": 2, "bad_ext": True}
+        check_case(ctx, make_case("bad-extensions", BASE_SDL, base, CONFIGS[k % 4], "{ a b os { id v } o { n { id } } }", None, None, w, middleware=(k % 2 == 0)), pending)
     flush(ctx, pending)
     # non-finite floats (X2)
     for k in range(ctx.n(6, 30)):
